@@ -99,37 +99,31 @@ Proof.
   rewrite gets_mint. destruct (decide _); subst; lia.
 Qed.
 
-Lemma run_hook_sup c s h s1 ok : L2.run_hook c s h = (s1, ok) → sup (L2.bk s1) = sup (L2.bk s).
-Proof.
-  unfold L2.run_hook. destruct h as [| |signer tseq sig_ok sends]; try (intros [= <- <-]; done).
-  destruct (_ <? _)%N; [intros [= <- <-]; done|].
-  destruct (negb _); [intros [= <- <-]; done|].
-  destruct (foldl _ _ _) as [b|] eqn:Hf; intros [= <- <-]; [|done]. cbn.
-  eapply (fold_send_sup (λ b snd, L2.hook_send c b signer snd)) in Hf; [exact Hf|].
-  intros b0 [[to d] amt] b' Hx. unfold L2.hook_send in Hx.
-  destruct (negb _); [discriminate|]. destruct (L2.blocked c to); [discriminate|].
-  by eapply bank_send_sup.
-Qed.
+Definition pairs_after (s : L2.l2state) (m : L2.fdep) : gmap bytes bytes :=
+  match L2.pairs s !! L2.fd_denom m with
+  | Some _ => L2.pairs s
+  | None => <[L2.fd_denom m := L2.fd_base m]> (L2.pairs s)
+  end.
 
 (* ------------------------------------------------------------------------------------ *)
-(* 3. the complete effect of a deposit message on the components the equation mentions     *)
+(* 3. a deposit message in stages: credit (s3), then the hook (s4), or the refund          *)
 (* ------------------------------------------------------------------------------------ *)
-Lemma finalize_deposit_effect c s m s' r :
+Lemma finalize_deposit_stages c s m s' r :
   L2.finalize_deposit c s m = Some (s', r) →
   (r = L2.RNoop ∧ s' = s) ∨
-  (L2.fd_seq m = L2.next_l1 s ∧ L2.next_l1 s' = (L2.next_l1 s + 1)%N ∧
-   L2.pairs s' = match L2.pairs s !! L2.fd_denom m with
-                 | Some _ => L2.pairs s
-                 | None => <[L2.fd_denom m := L2.fd_base m]> (L2.pairs s)
-                 end ∧
-   ((L2.wlog s' = L2.wlog s ∧ L2.next_l2 s' = L2.next_l2 s ∧
-     ∀ d, gets (L2.bk s') d = (gets (L2.bk s) d + (if decide (d = L2.fd_denom m) then L2.fd_amt m else 0))%Z) ∨
-    (∃ base, L2.pairs s' !! L2.fd_denom m = Some base ∧
-             L2.next_l2 s' = (L2.next_l2 s + 1)%N ∧
-             L2.wlog s' = {| L2.w_seq := L2.next_l2 s; L2.w_from := L2.fd_to m; L2.w_to := L2.fd_from m;
-                             L2.w_denom := L2.fd_denom m; L2.w_base := base; L2.w_amt := L2.fd_amt m;
-                             L2.w_refund := true |} :: L2.wlog s ∧
-             ∀ d, gets (L2.bk s') d = gets (L2.bk s) d))).
+  (L2.fd_seq m = L2.next_l1 s ∧
+   ∃ s3, L2.next_l1 s3 = (L2.next_l1 s + 1)%N ∧ L2.next_l2 s3 = L2.next_l2 s ∧ L2.wlog s3 = L2.wlog s ∧
+         L2.pairs s3 = pairs_after s m ∧
+     (((∀ d, gets (L2.bk s3) d = (gets (L2.bk s) d + (if decide (d = L2.fd_denom m) then L2.fd_amt m else 0))%Z) ∧
+       ∃ s4, ((∃ h, L2.run_hook c s3 h = (s4, true)) ∨ s4 = s3) ∧
+             L2.next_l1 s' = L2.next_l1 s4 ∧ L2.next_l2 s' = L2.next_l2 s4 ∧ L2.wlog s' = L2.wlog s4 ∧
+             L2.pairs s' = L2.pairs s4 ∧ L2.bk s' = L2.bk s4) ∨
+      (∃ base, L2.pairs s' !! L2.fd_denom m = Some base ∧ L2.pairs s' = L2.pairs s3 ∧
+               L2.next_l1 s' = L2.next_l1 s3 ∧ L2.next_l2 s' = (L2.next_l2 s + 1)%N ∧
+               L2.wlog s' = {| L2.w_seq := L2.next_l2 s; L2.w_from := L2.fd_to m; L2.w_to := L2.fd_from m;
+                               L2.w_denom := L2.fd_denom m; L2.w_base := base; L2.w_amt := L2.fd_amt m;
+                               L2.w_refund := true |} :: L2.wlog s ∧
+               ∀ d, gets (L2.bk s') d = gets (L2.bk s) d))).
 Proof.
   unfold L2.finalize_deposit.
   destruct (L2.fdep_valid c m) eqn:Hv; [|discriminate]. cbn [negb].
@@ -155,44 +149,44 @@ Proof.
   set (s3 := match L2.pairs s2 !! L2.fd_denom m with
              | Some _ => s2
              | None => L2.set_pairs s2 (<[L2.fd_denom m:=L2.fd_base m]> (L2.pairs s2)) end).
-  assert (F3 : L2.pairs s3 = match L2.pairs s !! L2.fd_denom m with
-                             | Some _ => L2.pairs s
-                             | None => <[L2.fd_denom m := L2.fd_base m]> (L2.pairs s)
-                             end ∧ L2.next_l2 s3 = L2.next_l2 s ∧ L2.wlog s3 = L2.wlog s ∧
+  assert (F3 : L2.pairs s3 = pairs_after s m ∧ L2.next_l2 s3 = L2.next_l2 s ∧ L2.wlog s3 = L2.wlog s ∧
                L2.next_l1 s3 = (L2.next_l1 s + 1)%N ∧ L2.bk s3 = L2.bk s1).
-  { subst s3 s2. cbn [L2.set_next_l1 L2.pairs]. rewrite F1c.
+  { unfold pairs_after. subst s3 s2. cbn [L2.set_next_l1 L2.pairs]. rewrite F1c.
     destruct (L2.pairs s !! L2.fd_denom m); cbn; rewrite ?F1c, ?F1a; auto 10. }
   destruct F3 as (F3a & F3b & F3c & F3d & F3e).
   destruct (if dep_ok && L2.hook_nonempty (L2.fd_hook m) then L2.run_hook c s3 (L2.fd_hook m) else (s3, true))
     as [s4 hook_ok] eqn:Hhook.
-  assert (F4 : frame_bk_seqs s3 s4).
-  { destruct (dep_ok && L2.hook_nonempty (L2.fd_hook m)); [eapply run_hook_frame; eauto|].
-    injection Hhook as <- <-. apply frame_bk_weaken, frame_bk_refl. }
-  assert (S4 : sup (L2.bk s4) = sup (L2.bk s3)).
-  { destruct (dep_ok && L2.hook_nonempty (L2.fd_hook m)); [eapply run_hook_sup; eauto|].
-    by injection Hhook as <- <-. }
-  destruct F4 as (F4a & F4b & F4c & F4d & F4e & F4f & F4g & F4h).
   destruct (dep_ok && hook_ok) eqn:Hok.
-  { intros [= <- <-]. right. cbn. split; [done|]. split; [congruence|]. split; [congruence|].
-    left. split; [congruence|]. split; [congruence|].
-    apply andb_true_iff in Hok as [-> _]. intros d.
-    rewrite (gets_sup _ _ _ S4), F3e. by apply S1t. }
+  { intros [= <- <-]. right. split; [done|]. exists s3. split; [done|]. split; [done|]. split; [done|]. split; [done|].
+    left. apply andb_true_iff in Hok as [-> ->]. split.
+    - intros d. rewrite F3e. by apply S1t.
+    - exists s4. split; [|cbn; done].
+      cbn [andb] in Hhook. destruct (L2.hook_nonempty (L2.fd_hook m)); [left; eexists; exact Hhook|].
+      right. by injection Hhook as <-. }
   intros Hrest. apply bind_Some in Hrest as (s5 & Hs5 & Hrest).
   apply bind_Some in Hrest as (base & Hbase & Hrest). injection Hrest as <- <-.
+  assert (K : L2.wlog s4 = L2.wlog s3 ∧ L2.next_l2 s4 = L2.next_l2 s3 ∧ L2.bk s4 = L2.bk s3 ∧
+              L2.pairs s4 = L2.pairs s3 ∧ L2.next_l1 s4 = L2.next_l1 s3).
+  { destruct dep_ok; cbn [andb] in Hok, Hhook.
+    - subst hook_ok. destruct (L2.hook_nonempty (L2.fd_hook m)); [|discriminate].
+      apply run_hook_frame in Hhook as ((Fa & Fb & _) & _ & Hk). destruct (Hk eq_refl) as (? & ? & ?). auto 10.
+    - by injection Hhook as <- _. }
+  destruct K as (K1 & K2 & K3 & K4 & K5).
   assert (F5 : frame_bk s4 s5 ∧ ∀ d, gets (L2.bk s5) d = gets (L2.bk s) d).
   { destruct dep_ok.
     - apply bind_Some in Hs5 as (a & _ & Hs5). apply bind_Some in Hs5 as (b1 & Hb1 & Hs5).
       apply bind_Some in Hs5 as (b2 & Hb2 & Hs5). injection Hs5 as <-. split; [apply frame_bk_set|].
       intros d. cbn. rewrite (bank_burn_Some _ _ _ _ _ Hb2 d).
-      rewrite !(gets_sup _ _ _ (bank_send_sup _ _ _ _ _ _ Hb1)), !(gets_sup _ _ _ S4), !F3e.
+      rewrite !(gets_sup _ _ _ (bank_send_sup _ _ _ _ _ _ Hb1)), !K3, !F3e.
       rewrite !(S1t eq_refl). destruct (decide (d = L2.fd_denom m)) as [->|Hne].
       + rewrite decide_True by done. lia.
       + lia.
     - injection Hs5 as <-. split; [apply frame_bk_refl|]. intros d.
-      rewrite (gets_sup _ _ _ S4), F3e. by rewrite (S1f eq_refl). }
+      rewrite K3, F3e. by rewrite (S1f eq_refl). }
   destruct F5 as [(F5a & F5b & F5c & F5d & F5e & F5f & F5g & F5h & F5i) S5].
-  right. cbn. split; [done|]. split; [congruence|]. split; [congruence|]. right.
-  exists base. split; [congruence|]. split; [congruence|]. split; [|exact S5].
+  right. split; [done|]. exists s3. split; [done|]. split; [done|]. split; [done|]. split; [done|].
+  right. exists base. cbn. split; [congruence|]. split; [congruence|]. split; [congruence|].
+  split; [congruence|]. split; [|exact S5].
   replace (L2.next_l2 s5) with (L2.next_l2 s) by congruence.
   replace (L2.wlog s5) with (L2.wlog s) by congruence. reflexivity.
 Qed.
@@ -415,13 +409,10 @@ Proof.
   rewrite H1, H4, (gets_sup _ _ _ H5). done.
 Qed.
 
-Lemma step_l2 c s m : inv c s → inv c (sys_step c s (SL2 m)).1.
+Lemma withdraw_sys c s w1 w2 w3 w4 s2 r :
+  inv c s → L2.withdraw (c2 c) (l2 s) w1 w2 w3 w4 = Some (s2, r) → inv c (set_l2 s s2).
 Proof.
-  intros I. cbn [sys_step]. destruct (l2_plain m) eqn:Hp; [|done]. unfold lift2, L2.step.
-  destruct (L2.handle (c2 c) (l2 s) m) as [[s2 r]|] eqn:Hh; [|done]. cbn.
-  destruct m as [f|w1 w2 w3 w4|b1 b2 b3 b4|i1 i2|u1 u2|v1 v2 v3|r1 r2|p1 p2 p3|sender inner];
-    try discriminate; cbn [L2.handle] in Hh.
-  - (* withdrawal: supply down, pending withdrawals up *)
+  intros I Hh.
     apply withdraw_Some in Hh as (a & bb1 & bb2 & base & Ha & Hto & Hd & Hamt & Hs1 & Hs2 & Hbase & _ & ->).
     pose proof I as [I1 I2 I3 I4 I5 I6 I7 I8].
     assert (Hnp : L2.next_l2 (l2 s) ∉ paid s).
@@ -444,6 +435,15 @@ Proof.
       * split; [lia|done].
       * destruct (I7 w Hw). split; [lia|done].
     + intros m Hm. destruct (I8 m Hm) as (w & ? & ? & ?). exists w. split; [by right|done].
+Qed.
+
+Lemma step_l2 c s m : inv c s → inv c (sys_step c s (SL2 m)).1.
+Proof.
+  intros I. cbn [sys_step]. destruct (l2_plain m) eqn:Hp; [|done]. unfold lift2, L2.step.
+  destruct (L2.handle (c2 c) (l2 s) m) as [[s2 r]|] eqn:Hh; [|done]. cbn.
+  destruct m as [f|w1 w2 w3 w4|b1 b2 b3 b4|i1 i2|u1 u2|v1 v2 v3|r1 r2|p1 p2 p3|sender inner];
+    try discriminate; cbn [L2.handle] in Hh.
+  - eapply withdraw_sys; eauto.
   - unfold L2.bank_send_msg in Hh. destruct (negb _); [discriminate|].
     apply bind_Some in Hh as (b & Hb & [= <- <-]). apply inv_l2_frame; auto. cbn.
     eapply bank_send_sup; eauto.
@@ -472,15 +472,64 @@ Qed.
 Lemma set_l2_same s : set_l2 s (l2 s) = s.
 Proof. by destruct s. Qed.
 
-Lemma step_relay c s k ex h hook : inv c s → inv c (sys_step c s (SRelay k ex h hook)).1.
+Lemma set_l2_twice s a b : set_l2 (set_l2 s a) b = set_l2 s b.
+Proof. reflexivity. Qed.
+
+Lemma hook_msg_sys c s signer m s2 :
+  inv c s → L2.hook_msg (c2 c) (l2 s) signer m = Some s2 → inv c (set_l2 s s2).
 Proof.
-  intros I. cbn [sys_step]. destruct (find_event c (l1 s) k) as [ev|] eqn:Hf; [|done].
-  apply find_elem in Hf as [Hin Hk]. apply N.eqb_eq in Hk.
-  unfold lift2, L2.step. cbn [L2.handle].
-  destruct (L2.finalize_deposit (c2 c) (l2 s) (relay_msg ev ex h hook)) as [[s2 r]|] eqn:Hd; [|done].
-  cbn [fst]. apply finalize_deposit_effect in Hd as [(-> & ->)|(Hseq & Hn1 & Hp & Hcase)].
-  { by rewrite set_l2_same. }
-  cbn [relay_msg L2.fd_seq L2.fd_denom L2.fd_base L2.fd_amt L2.fd_to L2.fd_from] in *.
+  intros I. destruct m as [to d amt|sender to d amt]; cbn [L2.hook_msg].
+  - intros Hx. apply bind_Some in Hx as (b & Hb & [= <-]). apply inv_l2_frame; auto. cbn.
+    unfold L2.hook_send in Hb. destruct (negb _); [discriminate|]. destruct (L2.blocked _ to); [discriminate|].
+    by eapply bank_send_sup.
+  - destruct (negb _); [discriminate|]. intros Hx. apply bind_Some in Hx as ([s1 r1] & Hw & [= <-]).
+    eapply withdraw_sys; eauto.
+Qed.
+
+Lemma hook_fold_sys c signer msgs : ∀ s s2,
+  inv c s → foldl (λ os m, s ← os; L2.hook_msg (c2 c) s signer m) (Some (l2 s)) msgs = Some s2 →
+  inv c (set_l2 s s2).
+Proof.
+  induction msgs as [|m msgs IH]; intros s s2 I; cbn [foldl].
+  - intros [= <-]. by rewrite set_l2_same.
+  - cbn [mbind option_bind]. destruct (L2.hook_msg (c2 c) (l2 s) signer m) as [s1|] eqn:E.
+    + intros Hx. pose proof (hook_msg_sys _ _ _ _ _ I E) as I1.
+      rewrite <- (set_l2_twice s s1 s2). apply IH; [done|]. exact Hx.
+    + rewrite (hook_fold_None (c2 c) signer msgs). discriminate.
+Qed.
+
+Lemma run_hook_sys c s h s2 ok :
+  inv c s → L2.run_hook (c2 c) (l2 s) h = (s2, ok) → inv c (set_l2 s s2).
+Proof.
+  intros I. unfold L2.run_hook. destruct h as [| |signer tseq sig_ok msgs].
+  - intros [= <- <-]. by rewrite set_l2_same.
+  - intros [= <- <-]. by rewrite set_l2_same.
+  - destruct (_ <? _)%N. { intros [= <- <-]. by rewrite set_l2_same. }
+    destruct (negb _). { intros [= <- <-]. by rewrite set_l2_same. }
+    set (s1 := L2.set_seqs (l2 s) _).
+    assert (I1 : inv c (set_l2 s s1)) by (apply inv_l2_frame; auto).
+    destruct (foldl _ _ msgs) as [s3|] eqn:Hf; intros [= <- <-]; [|exact I1].
+    rewrite <- (set_l2_twice s s1 s3). apply (hook_fold_sys c signer msgs); [exact I1|exact Hf].
+Qed.
+
+(* the two closed forms of a processed relay: credited (before the hook) and refunded *)
+Lemma relay_closed c s ev s2 :
+  inv c s → ev ∈ bevents c (l1 s) → L1.e_seq ev = L2.next_l1 (l2 s) →
+  L2.next_l1 s2 = (L2.next_l1 (l2 s) + 1)%N →
+  L2.pairs s2 = match L2.pairs (l2 s) !! L1.e_l2denom ev with
+                | Some _ => L2.pairs (l2 s)
+                | None => <[L1.e_l2denom ev := L1.e_l1denom ev]> (L2.pairs (l2 s))
+                end →
+  ((L2.wlog s2 = L2.wlog (l2 s) ∧ L2.next_l2 s2 = L2.next_l2 (l2 s) ∧
+    ∀ d, gets (L2.bk s2) d = (gets (L2.bk (l2 s)) d + (if decide (d = L1.e_l2denom ev) then L1.e_amt ev else 0))%Z) ∨
+   (∃ base, L2.pairs s2 !! L1.e_l2denom ev = Some base ∧ L2.next_l2 s2 = (L2.next_l2 (l2 s) + 1)%N ∧
+            L2.wlog s2 = {| L2.w_seq := L2.next_l2 (l2 s); L2.w_from := L1.e_to ev; L2.w_to := L1.e_from ev;
+                            L2.w_denom := L1.e_l2denom ev; L2.w_base := base; L2.w_amt := L1.e_amt ev;
+                            L2.w_refund := true |} :: L2.wlog (l2 s) ∧
+            ∀ d, gets (L2.bk s2) d = gets (L2.bk (l2 s)) d)) →
+  inv c (set_l2 s s2).
+Proof.
+  intros I Hin Hseq Hn1 Hp Hcase.
   pose proof I as [I1 I2 I3 I4 I5 I6 I7 I8].
   destruct (I4 ev Hin) as [Hlt Hl2d].
   assert (HU : ∀ d, pending_dep c (set_l2 s s2) d =
@@ -544,6 +593,31 @@ Proof.
       * split; [lia|done].
       * destruct (I7 w Hin'). split; [lia|]. by apply Hsub.
     + intros m Hm. destruct (I8 m Hm) as (w & ? & ? & ?). exists w. rewrite Hw. split; [by right|done].
+Qed.
+
+
+Lemma step_relay c s k ex h hook : inv c s → inv c (sys_step c s (SRelay k ex h hook)).1.
+Proof.
+  intros I. cbn [sys_step]. destruct (find_event c (l1 s) k) as [ev|] eqn:Hf; [|done].
+  apply find_elem in Hf as [Hin Hk]. apply N.eqb_eq in Hk.
+  unfold lift2, L2.step. cbn [L2.handle].
+  destruct (L2.finalize_deposit (c2 c) (l2 s) (relay_msg ev ex h hook)) as [[s2 r]|] eqn:Hd; [|done].
+  cbn [fst]. apply finalize_deposit_stages in Hd as [(-> & ->)|(Hseq & s3 & Hn1 & Hn2 & Hw & Hp & Hcase)].
+  { by rewrite set_l2_same. }
+  unfold pairs_after in Hp.
+  cbn [relay_msg L2.fd_seq L2.fd_denom L2.fd_base L2.fd_amt L2.fd_to L2.fd_from L2.fd_hook] in *.
+  destruct Hcase as [(Hs & s4 & Hhook & E1 & E2 & E3 & E4 & E5)|(base & Hb & Hp' & Hn1' & Hn2' & Hw' & Hs')].
+  - (* credited at s3, then the hook, then only the deposit log changes *)
+    assert (I3 : inv c (set_l2 s s3)).
+    { eapply relay_closed; eauto. }
+    assert (I4 : inv c (set_l2 s s4)).
+    { destruct Hhook as [(h' & Hh)|Heq]; [|rewrite Heq; exact I3].
+      rewrite <- (set_l2_twice s s3 s4). eapply run_hook_sys; [exact I3|exact Hh]. }
+    rewrite <- (set_l2_twice s s4 s2). apply inv_l2_frame; auto. cbn. by rewrite E5.
+  - eapply relay_closed; eauto.
+    + congruence.
+    + congruence.
+    + right. exists base. auto.
 Qed.
 
 Lemma step_claim c s e sender idx m lo hi v bh :
